@@ -24,15 +24,17 @@
    * "and leaves all rows of other users in training"                     -> user_pairs (third clause of eff = false)
    * "temporal splitting places every record strictly before the cut in training and every record in
      [cut, next cut or end) in test"                                      -> temporal_cut, filter_window_exact
+        (times are integers of ANY magnitude compared exactly with rational cut-offs; integer_cut_ceiling: the
+        code's comparison of an integer column with math.ceil of a fractional cut-off is that exact comparison)
    * "for cut-offs given as UNIX seconds or in the same representation as the stored times - every
      local time-zone setting"                                             -> temporal_zone_free
    Records are (user, item, attribute, time) tuples carried whole, so "attributes unchanged" is part
    of Permutation.  Hypothesis NoDup (map pair_of recs): the interaction class has no repeated
    (user, item) pair.  Not theorems (correspondence only): that pandas' quantile is the cut of
    split_temporal_fraction; the Arrow anti-join / mask kernels themselves. *)
-From Coq Require Import ZArith QArith List Bool Permutation Lia.
+From Coq Require Import ZArith QArith Qround List Bool Permutation Lia.
 From LK Require Import Lib.SplitLib Lib.PyRoundZ Gen.C05_holdout Model.C05_split
-     Proofs.C05_records Proofs.C05_holdout Proofs.C05_users Proofs.C05_temporal Proofs.C05_main.
+     Proofs.C05_records Proofs.C05_holdout Proofs.C05_users Proofs.C05_temporal Proofs.C05_resolution Proofs.C05_main.
 Import ListNotations.
 
 (* ---- record-based ---------------------------------------------------------------------------------------- *)
@@ -195,6 +197,22 @@ Theorem filter_window_exact :
      match mx with None => True | Some b => (tq r < conv c off b)%Q end).
 Proof. exact filter_window_spec. Qed.
 Print Assumptions filter_window_exact.
+
+(* integer times (seconds ... nanoseconds since the epoch, beyond 2^53) against a fractional cut-off x: the code
+   compares with math.ceil(x) (builder._conform_time, temporal._int_bound); for every integer time and every
+   rational x this is the exact comparison, so the pairs / the window built from the ceilings are those of x *)
+Theorem integer_cut_ceiling :
+  (forall (z : Z) (x : Q), ((inject_Z z < x)%Q <-> (z < Qceiling x)%Z) /\ ((x <= inject_Z z)%Q <-> (Qceiling x <= z)%Z)) /\
+  (forall recs cuts endt,
+     time_folds recs (map (fun t => inject_Z (Qceiling t)) cuts) (option_map (fun e => inject_Z (Qceiling e)) endt)
+     = time_folds recs cuts endt) /\
+  (forall recs (mn mx : option Q),
+     filter (fun r => match mn with None => true | Some a => Qle_b (inject_Z (Qceiling a)) (tq r) end &&
+                      match mx with None => true | Some b => Qlt_b (tq r) (inject_Z (Qceiling b)) end) recs
+     = filter (fun r => match mn with None => true | Some a => Qle_b a (tq r) end &&
+                        match mx with None => true | Some b => Qlt_b (tq r) b end) recs).
+Proof. exact integer_cut_ceiling_l. Qed.
+Print Assumptions integer_cut_ceiling.
 
 (* ---- frames, checkers --------------------------------------------------------------------------------------------------- *)
 Theorem frames_list_records :
